@@ -140,7 +140,7 @@ func (p *Program) LoadConsts() error {
 		fmt.Fprintf(&mainSrc, "\tp%d.VerifDumpConsts(emit)\n", i)
 		var src bytes.Buffer
 		fmt.Fprintf(&src, "package %s\n\nimport (\n\tverifFmt \"fmt\"\n\tverifBig \"math/big\"\n\tverifReflect \"reflect\"\n\tverifRuntime \"runtime\"\n)\n\nvar _ = verifFmt.Sprint\nvar _ *verifBig.Int\n\n", pkgName[pp])
-		src.WriteString("func verifFuncName(f any) string {\n\tv := verifReflect.ValueOf(f)\n\tif !v.IsValid() || v.Kind() != verifReflect.Func || v.IsNil() {\n\t\treturn \"nil\"\n\t}\n\tif fn := verifRuntime.FuncForPC(v.Pointer()); fn != nil {\n\t\treturn fn.Name()\n\t}\n\treturn \"?\"\n}\n\n")
+		src.WriteString("func verifFuncName(f any) string {\n\tv := verifReflect.ValueOf(f)\n\tif !v.IsValid() || v.Kind() != verifReflect.Func || v.IsNil() {\n\t\treturn \"nil\"\n\t}\n\tif fn := verifRuntime.FuncForPC(v.Pointer()); fn != nil {\n\t\tfile, line := fn.FileLine(fn.Entry())\n\t\treturn verifFmt.Sprintf(\"%s@%s:%d\", fn.Name(), file, line)\n\t}\n\treturn \"?\"\n}\n\n")
 		src.WriteString("func VerifDumpConsts(emit func(name, val string)) {\n")
 		src.WriteString("\tb := func(x *verifBig.Int) string { if x == nil { return \"nil\" }; return x.String() }\n\t_ = b\n")
 		for _, g := range byPkg[pp] {
